@@ -44,8 +44,18 @@
      C07_statement_seven_classes
                               parsing yields corrS on the three proved no-base classes of non-special schemes
                               of C01; with it the statement for these start URLs x seven setters x all histories
-   The gap: the host, pathname and href setters, hostname on file URLs, and "every parse outside Known_C01
-   yields records related by corrS" for special schemes (the second clause of C07_statement).
+     C07_related_corrS, C07_spec_parse_invariants, C07_parse_model_extra, C07_parse_all_corrS
+                              parsing yields corrS for EVERY scalar-value input outside Known_C01, special schemes
+                              included (the second clause of C07_statement with R := corrS): from C01_statement_all
+                              (`related` pairs) through a bridge related => corrS whose side conditions are parser
+                              invariants of the two sides; host functions: host_parse_ok
+     C07_seven_all, C07_statement_seven_all
+                              C07_statement restricted to seven setters for every URL parsed outside Known_C01
+     C07_href_equiv, C07_eight_setters_partial, C07_eight_histories, C07_statement_eight_all
+                              href (= C01, outside classes 11-14) up to C01's Overflow arm (a new URL longer than
+                              u32::MAX bytes: the code keeps the old URL); eight setters, all histories
+   The gap: the host and pathname setters, hostname on file URLs (class 4 of Known_C07 covers them all), href
+   values whose URL exceeds u32::MAX bytes, and host_parse_ok in place of hosts_agree.
    It is covered by the fixed-seed differential run implementation <-> specification model of the
    harness (a test). *)
 From Coq Require Import String.
@@ -987,6 +997,31 @@ Check C07_eight_histories : forall dbg hp ho hd shp shs, host_parse_ok hp ho hd 
     /\ corrS dbg shs u' su'
     /\ model_api dbg u' = Some (spec_api_list shs su').
 Print Assumptions C07_eight_histories.
+
+(* in the shape of C07_statement: ONE abstraction relation (corrS), the parse clause as in C07_statement, the
+   one-step clause for eight of the ten setters.  Against C07_statement: host and pathname missing (and hostname on
+   file URLs: class 4 of Known_C07 covers them all); href values whose URL exceeds u32::MAX bytes; host_parse_ok
+   instead of hosts_agree; inputs and values that are scalar-value strings. *)
+Theorem C07_statement_eight_all : forall dbg hp ho hd shp shs, host_parse_ok hp ho hd shp shs ->
+  exists R : url -> spec_url -> Prop,
+    (forall u su, R u su -> model_api dbg u = Some (spec_api_list shs su))
+    /\ (forall input u, usv_list input -> known_c01 None input = 0 ->
+          parse_url dbg hp ho hd None None input = POk u ->
+          exists su, spec_basic_url_parse shp input None = BDone su /\ R u su)
+    /\ (forall u su s v, R u su -> (seven s = true \/ (s = QHref /\ href_fits shp shs v)) -> usv_list v ->
+          known_c07 u s v = 0 ->
+          exists u' su', model_set dbg hp ho hd s u v = Some u' /\ spec_step shp s su v = Some su' /\ R u' su').
+Proof. exact statement_eight_all. Qed.
+Check C07_statement_eight_all : forall dbg hp ho hd shp shs, host_parse_ok hp ho hd shp shs ->
+  exists R : url -> spec_url -> Prop,
+    (forall u su, R u su -> model_api dbg u = Some (spec_api_list shs su))
+    /\ (forall input u, usv_list input -> known_c01 None input = 0 ->
+          parse_url dbg hp ho hd None None input = POk u ->
+          exists su, spec_basic_url_parse shp input None = BDone su /\ R u su)
+    /\ (forall u su s v, R u su -> (seven s = true \/ (s = QHref /\ href_fits shp shs v)) -> usv_list v ->
+          known_c07 u s v = 0 ->
+          exists u' su', model_set dbg hp ho hd s u v = Some u' /\ spec_step shp s su v = Some su' /\ R u' su').
+Print Assumptions C07_statement_eight_all.
 
 (* the hypotheses can be met: on "a://h/p", href := " hTTps:\\u:p@H.x:0443/a/../b?q#f" (fits), then hostname := "y.z" *)
 Example C07_eight_inhabited :
